@@ -12,10 +12,47 @@ MANIFEST = {
     "technique": "Rocq proof over the Factory/Resolve model + vm_compute correspondence on generated wiring scenarios",
 }
 
-PROFILES = [(Profile(p_fault=0.9, n_faults=(1, 2), n_procs=(0, 2), p_valid=0.7, p_cfg=0.4, p_cfg_unsat=0.3, p_loader_fail=0.05, p_runner=0.4), 600, 6000)]
+PROFILES = [(Profile(p_fault=0.9, n_faults=(1, 2), n_procs=(0, 2), p_valid=0.7, p_cfg=0.4, p_cfg_unsat=0.3, p_loader_fail=0.05, p_runner=0.4), 480, 5000),
+            (Profile(p_fault=0.3, n_procs=(1, 3), proc_points=0.7, p_valid=0.7, p_cycle_bias=0.3, fields=(1, 3)), 120, 1000)]
 
 RULE = 'base scenarios x one or two faults (required point, AfterPropertiesSet, Init, processor callback, loader, runner, required config value); non-trivial = scenario contains a fault or an unsatisfiable required point'
 
 
+def _pt(target, sel, required=True, slice_=False):
+    return {"slice": slice_, "target": target, "sel": sel, "quals": None, "required": required}
+
+
+def _type(**kw):
+    t = {"ifaces": [], "naming": False, "qual": False, "primary": False, "lazy": False, "aps": False, "init": False,
+         "runner": None, "closer": False, "proc": None, "methods": [], "fields": [], "cfields": []}
+    t.update(kw)
+    return t
+
+
+def _comp(ti, name="", proc=None):
+    return {"type": ti, "name": name, "qual": "", "apsFail": False, "initFail": False, "runFail": False, "closeErr": False,
+            "ord": 0, "rets": {}, "proc": proc}
+
+
+# canonical witness of KF-C05a: an eager, unordered user post-processor component with a required by-name point
+# naming a component that does not exist, next to one plain component; the unchanged tree starts successfully
+KF_C05A_WITNESS = {"id": 0, "nif": 1, "sealed": [False],
+                   "types": [_type(init=True),
+                             _type(naming=True, proc="U", fields=[_pt(("ptr", 0), ("name", "nope0"))])],
+                   "comps": [_comp(0), _comp(1, "h1", {"early": {}, "after": {}, "faults": []})],
+                   "loaderFail": False, "regorder": [0, 1]}
+
+
 def run(ctx):
-    return wiring.run_family(ctx, "Corr.Check_C09", wiring.std_scenarios(PROFILES), RULE)
+    kf = set()
+
+    def post(ctx, by_id, cov, out):
+        kf.update(out.get("KF05", []))
+        cov["known_finding_classes"] = {"KF-C05a": len(kf)}
+
+    def classify(case):
+        return "KF-C05a" if case.get("scenario", {}).get("id") in kf else None
+
+    import copy
+    return wiring.run_family(ctx, "Corr.Check_C09", wiring.std_scenarios(PROFILES), RULE, post=post, classify_known=classify,
+                             extra_defs={"KF05": "kf_c05a"}, extra_corpus=[copy.deepcopy(KF_C05A_WITNESS)])
